@@ -24,11 +24,12 @@
 //!   R8  Shared::boxed(BinEntry::TreeNode(TreeNode::new(hash,key,value,next,parent)), collector) -> h.alloc_tree_node(hash,key,value,next,parent)
 //!       with Atomic::from(x) -> x, Atomic::null() -> NULL
 //!   R9  guard.retire_shared(<node>.node.value.load(..)) -> h.retire_value(<ptr>);  guard.retire_shared(x) -> h.retire(x)
-//!   R10 unreachable!(..) -> unreached()  (obligation: proved unreachable);  debug_assert!(..) and `if cfg!(debug_assertions) {..}` removed
+//!   R10 unreachable!(..) -> { assert(false); loop invariant false decreases 0int { } }  (obligation: proved unreachable; still diverging);  debug_assert!(..) and `if cfg!(debug_assertions) {..}` removed
 //!   R11 self.lock_root(..) / self.unlock_root() removed (sequential semantics)
 //!   R12 key comparisons: keys are u64; `.borrow()` and `&`/`*` on keys dropped; a.cmp(&b) kept; o.then(p) -> ord_then(o, p)
 //!   R13 `let x: Shared<..>;` (uninitialised) -> `let mut x: Ptr = NULL;`
 //!   R14 TreeBin { root: Atomic::from(r), first: Atomic::from(b), .. } -> h.make_bin(r, b)
+//!   R16 an argument of a heap-mutating call that itself reads the heap is evaluated into a temporary first
 //!   R15 `let x = loop { .. break v; .. }` / `p = match .. {..}.load(..)`: kept structurally (Verus supports them)
 use crate::emit::{sha256_hex, toks};
 use crate::index::{FnInfo, SrcIndex};
@@ -53,6 +54,9 @@ pub struct Tx<'a> {
     pub loop_count: usize,
     pub ret_count: usize,
     pub self_is_bin: bool,
+    /// statements hoisted out of the current one (R16)
+    pub pre: Vec<String>,
+    pub tmp_count: usize,
 }
 
 fn path_str(p: &syn::Path) -> String {
@@ -70,7 +74,23 @@ impl<'a> Tx<'a> {
         self.errors.push(format!("unsupported construct in {} ({}:{}): {}", self.f.key, self.f.file, sp.start().line, what));
     }
     fn push(&mut self, ind: usize, text: String, src_line: usize, simple: bool) {
+        let pre = std::mem::take(&mut self.pre);
+        for p in pre {
+            self.lines.push(Line { ind, text: p, src_line, simple: true, marker: None });
+        }
         self.lines.push(Line { ind, text, src_line, simple, marker: None });
+    }
+    /// R16: an argument that itself uses the heap is evaluated into a temporary first (same evaluation order;
+    /// needed because the arena is passed as `&mut Heap` where the real code uses interior mutability)
+    fn hoist(&mut self, v: String) -> String {
+        if v.contains("h.") || v.contains("(h,") || v.contains("(h)") {
+            self.tmp_count += 1;
+            let t = format!("tmp{}", self.tmp_count);
+            self.pre.push(format!("let {} = {};", t, v));
+            t
+        } else {
+            v
+        }
     }
     fn mark(&mut self, ind: usize, marker: String) {
         self.lines.push(Line { ind, text: String::new(), src_line: 0, simple: false, marker: Some(marker) });
@@ -200,7 +220,7 @@ impl<'a> Tx<'a> {
             syn::Expr::Macro(m) => {
                 let n = m.mac.path.segments.last().map(|s| s.ident.to_string()).unwrap_or_default();
                 match n.as_str() {
-                    "unreachable" => "unreached()".to_string(),
+                    "unreachable" => "{ assert(false); loop invariant false decreases 0int { } }".to_string(),
                     "treenode" => match self.node_ptr(e) {
                         Some(p) => p,
                         None => {
@@ -318,7 +338,7 @@ impl<'a> Tx<'a> {
                 syn::Stmt::Macro(m) => {
                     let n = m.mac.path.segments.last().map(|s| s.ident.to_string()).unwrap_or_default();
                     if n == "unreachable" {
-                        parts.push("unreached()".into());
+                        parts.push("assert(false); loop invariant false decreases 0int { }".into());
                     } else if n.starts_with("debug_assert") {
                     } else {
                         self.err(&format!("macro {}! in value block", n), m.span());
@@ -363,7 +383,12 @@ impl<'a> Tx<'a> {
         }
         let segs: Vec<&str> = p.split("::").collect();
         if segs.len() == 2 && (segs[0] == "Self" || segs[0] == "TreeNode" || segs[0] == "TreeBin") {
-            let args: Vec<String> = c.args.iter().filter(|a| !is_drop_arg(a)).map(|a| self.expr(a)).collect();
+            let raw: Vec<&syn::Expr> = c.args.iter().filter(|a| !is_drop_arg(a)).collect();
+            let mut args: Vec<String> = vec![];
+            for a in raw {
+                let v = self.expr(a);
+                args.push(self.hoist(v));
+            }
             let mut all = vec!["h".to_string()];
             all.extend(args);
             return format!("{}({})", segs[1], all.join(", "));
@@ -392,6 +417,7 @@ impl<'a> Tx<'a> {
             }
             "store" => {
                 let v = m.args.first().map(|a| self.expr(a)).unwrap_or_default();
+                let v = self.hoist(v);
                 if let Some((p, f)) = self.node_field(&m.receiver) {
                     if p == "@bin" {
                         return format!("h.set_{}({})", f, v);
@@ -505,7 +531,7 @@ impl<'a> Tx<'a> {
                 let n = m.mac.path.segments.last().map(|s| s.ident.to_string()).unwrap_or_default();
                 match n.as_str() {
                     "debug_assert" | "debug_assert_eq" | "debug_assert_ne" => {}
-                    "unreachable" => self.push(ind, "unreached::<()>();".into(), ln, true),
+                    "unreachable" => self.push(ind, "assert(false); loop invariant false decreases 0int { }".into(), ln, true),
                     _ => self.err(&format!("macro {}!", n), m.span()),
                 }
             }
@@ -630,7 +656,7 @@ impl<'a> Tx<'a> {
                 let n = m.mac.path.segments.last().map(|s| s.ident.to_string()).unwrap_or_default();
                 match n.as_str() {
                     "debug_assert" | "debug_assert_eq" | "debug_assert_ne" => {}
-                    "unreachable" => self.push(ind, "unreached::<()>();".into(), ln, true),
+                    "unreachable" => self.push(ind, "assert(false); loop invariant false decreases 0int { }".into(), ln, true),
                     _ => self.err(&format!("macro {}!", n), m.span()),
                 }
             }
@@ -742,7 +768,7 @@ pub fn generate(idx: &SrcIndex, template: &str) -> ArenaOut {
                     errors.push(format!("lost anchor: function {} not found", key));
                 }
                 Some(f) => {
-                    let mut tx = Tx { f, lines: vec![], errors: vec![], aliases: vec![], loop_count: 0, ret_count: 0, self_is_bin: f.owner == "TreeBin" };
+                    let mut tx = Tx { f, lines: vec![], errors: vec![], aliases: vec![], loop_count: 0, ret_count: 0, self_is_bin: f.owner == "TreeBin", pre: vec![], tmp_count: 0 };
                     tx.block(&f.block, 1);
                     errors.extend(tx.errors.iter().cloned());
                     // resolve anchors
